@@ -20,7 +20,7 @@ while [ $i -lt $n ]; do
       p=$(echo "$p" | sed 's#//#/#')
       if [ "$kind" = selftest ]; then id=$(basename "$p" | cut -c1-3); name=$(basename "$p" .patch); else id=$(echo "$p" | cut -d/ -f2); name=$(echo "$p" | cut -d/ -f3); fi
       rm -rf replays/$id
-      r=$(tools/selftest.sh "$id" "$p" quick 2>&1 | grep -E "^(CAUGHT|MISSED|patch does not apply|repo dirty)" | tail -1)
+      r=$(tools/selftest.sh "$id" "$p" quick 2>&1 | grep -aE "^(CAUGHT|MISSED|patch does not apply|repo dirty)" | tail -1)
       first=$(ls replays/$id 2>/dev/null | head -1)
       echo "$kind $id $name: $r [$first]"
     done < /tmp/wk/$ws/items > /tmp/wk/$ws/matrix.log 2>&1
